@@ -7,6 +7,7 @@ import DtnVerif.Drv.Frag
 import DtnVerif.Drv.Bp
 import DtnVerif.Drv.Udpcl
 import DtnVerif.Drv.Btpu
+import DtnVerif.Drv.Tls
 namespace DtnVerif
 namespace Drv
 
@@ -20,7 +21,8 @@ def handlers : List Handler := [
   fragHandler,
   bpHandler,
   udpclHandler,
-  btpuHandler
+  btpuHandler,
+  tlsHandler
 ]
 
 end Drv
